@@ -501,6 +501,28 @@ def attrRecOf (h : Heap) (k : String) (v : Val) (e : Bool) : M (List AttrRec) :=
     let s ← ofOpt (objStr h (strFuel h) v) "String() outside domain"
     pure [(k, none, s, e)]
 
+/-- the (name, value) pairs of a `__op__map_params` argument list -/
+def mpairs : List Val → Option (List (String × Val))
+  | .str k :: v :: rest => (mpairs rest).map ((k, v) :: ·)
+  | [] => some []
+  | _ => none
+
+/-- one entry of a mixin call's `attributes` object: a name given once keeps its value, a repeated name collects its values in a
+FRESH list (runtime.go `__op__map_params`) -/
+def mapParamsItem (ps : List (String × Val)) (k : String) : M (String × Val) :=
+  match (ps.filter (·.1 == k)).map (·.2) with
+  | [v] => pure (k, convertRaw v)
+  | vs => do
+    let arr ← allocArr (vs.map convertRaw)
+    pure (k, arr)
+
+/-- runtime.go `__op__map_params`: map[interface{}]interface{} keyed by the raw name; a repeated name collects its values in a slice -/
+def mapParams (kvs : List Val) : M Val := do
+  let ps ← ofOpt (mpairs kvs) "__op__map_params key"
+  let names := ps.foldl (fun acc kv => if acc.contains kv.1 then acc else acc ++ [kv.1]) ([] : List String)
+  let items ← names.mapM (mapParamsItem ps)
+  allocMap { items := items, order := [] }
+
 /-- apply a function-map entry to evaluated arguments; results already passed through `convert` -/
 def callBuiltin (name : String) (args : List Val) : M Val := do
   let h ← getHeap
@@ -584,22 +606,7 @@ def callBuiltin (name : String) (args : List Val) : M Val := do
           | .attrs rs => pure rs
           | _ => domainErr "__attrs argument"
         pure (.S (renderAttrs recs.flatten))
-      | "__op__map_params", kvs => do
-        -- map[interface{}]interface{} keyed by the raw name; a repeated name collects its values in a slice
-        let rec mpairs : List Val → M (List (String × Val))
-          | .str k :: v :: rest => do pure ((k, v) :: (← mpairs rest))
-          | [] => pure []
-          | _ => domainErr "__op__map_params key"
-        let ps ← mpairs kvs
-        let names := ps.foldl (fun acc kv => if acc.contains kv.1 then acc else acc ++ [kv.1]) ([] : List String)
-        let items ← names.mapM fun k => do
-          let vs := (ps.filter (·.1 == k)).map (·.2)
-          match vs with
-          | [v] => pure (k, convertRaw v)
-          | vs => do
-            let arr ← allocArr (vs.map convertRaw)
-            pure (k, arr)
-        allocMap { items := items, order := [] }
+      | "__op__map_params", kvs => mapParams kvs
       | "vpIdent", [x] => pure (convertRaw x)
       | "__Range", args => do
         -- runtime.go __Range: one argument m: 0..m-1; two: o..m-1; fresh array on every call
